@@ -40,7 +40,7 @@ KEEP = []          # wrappers are kept alive for the duration of one event (cach
 def query(cls, rec):
     """All public typing queries of one class on one record, never raising."""
     from moclo import errors
-    res = {"valid": False, "exc": "", "up": [], "down": [], "tgt": [], "ph": [], "qexc": [], "qinv": True}
+    res = {"valid": False, "exc": "", "up": [], "down": [], "tgt": [], "ph": [], "qexc": [], "qinv": True, "again": True}
     try:
         ent = cls(rec)
         KEEP.append(ent)
@@ -64,6 +64,11 @@ def query(cls, rec):
             res["qexc"].append(type(ex).__name__)
             if not isinstance(ex, errors.InvalidSequence):
                 res["qinv"] = False
+    # the same wrapper asked once more, after the other queries
+    try:
+        res["again"] = bool(guarded(ent.is_valid)) == res["valid"]
+    except BaseException:  # noqa
+        res["again"] = False
     return res
 
 
